@@ -1252,9 +1252,32 @@ func runC08(ctx *Ctx) *Result {
 		nrand := 20000
 		if thorough {
 			nrand = 400000
-			if len(full) <= 260 {
-				argvs = append(argvs, c08AllArgv(full, 3)...)
+			// all argv of 3 arguments over the core alphabet plus every second string of the full one, in chunks
+			alpha := append([]string{}, core...)
+			for i := 0; i < len(full) && len(alpha) < 220; i += 2 {
+				alpha = append(alpha, full[i])
 			}
+			alpha = c08Dedup(alpha)
+			res.Count("getopt."+tc.which+".alphabet.thorough", len(alpha))
+			var chunk [][]string
+			flush := func() {
+				if len(chunk) > 0 && res.Broken == "" {
+					res.Count("getopt."+tc.which+".exhaustive", len(chunk))
+					c08CheckGetopt(ctx, res, tc.which, tc.tbl, chunk)
+				}
+				chunk = chunk[:0]
+			}
+			for _, a := range alpha {
+				for _, b := range alpha {
+					for _, c := range alpha {
+						chunk = append(chunk, []string{"prog", a, b, c})
+					}
+				}
+				if len(chunk) >= 400000 {
+					flush()
+				}
+			}
+			flush()
 		}
 		res.Count("getopt."+tc.which+".exhaustive", len(argvs))
 		argvs = append(argvs, c08RandomArgv(rng, full, nrand)...)
